@@ -52,7 +52,7 @@ ALLFAM = ["mix", "mix", "mix", "ps", "core1", "tandem", "prio", "preempt", "cls"
           "slot", "ccw", "trk", "reroute", "stopcount"]
 
 TIERS = {
-    "quick": dict(traces=320, max_events=60, mc_timeout=240, batch=10),
+    "quick": dict(traces=640, max_events=60, mc_timeout=240, batch=10),
     "thorough": dict(traces=3000, max_events=200, mc_timeout=1500, batch=40),
 }
 
@@ -149,15 +149,15 @@ def judge(prop, verdicts, traces, known):
         for clause, idx in v["fails"]:
             if not clause.startswith(prop + "."):
                 continue
-            expl = [f for f in open_f if f["id"] in taint and taint[f["id"]] <= idx]
+            expl = [f for f in open_f if f["id"] in taint and taint[f["id"]] <= idx
+                    and any(clause.startswith(pat) for pat in f.get("explains", []))]
             if expl:
                 kf.append((expl[0], clause, idx, t))
             else:
                 viol.append((clause, idx, t, v))
         if t["outcome"] in ("crash", "livelock") and prop == "C14" and not t["cfg"].get("fault"):
             cr = t["crash"]
-            expl = [f for f in open_f if f["id"] in taint or
-                    (f.get("signature", {}).get("crash") == [cr["type"], cr["where"]])]
+            expl = [f for f in open_f if f["id"] in taint and "C14.no-crash" in f.get("explains", [])]
             if expl:
                 kf.append((expl[0], "C14.no-crash", len(t["events"]), t))
             else:
@@ -260,7 +260,7 @@ def run_check(prop, tier, seed):
     for j in range(n):
         # half of the budget on the property's home families, half on every other family (R3: the monitors
         # themselves guard on the property's domain, so out-of-domain scenarios are simply not judged)
-        fam = fams[(j // 2) % len(fams)] if j % 2 == 0 else others[(j // 2) % len(others)]
+        fam = fams[(j // 3) % len(fams)] if j % 3 == 0 else others[(j - j // 3) % len(others)]
         jobs.append((fam, seed * 100000 + j, T["max_events"], 0.1 if j % 5 == 0 else 0.0))
     res = generate_traces(jobs)
     traces, skipped = [], []
